@@ -125,3 +125,24 @@ CHECKS["C09"] = {
         {"name": "rlfilter", "pkg": "pkg/filters/ratelimiter", "test": "TestVerifC09filter", "workers": 4},
     ],
 }
+
+PROXYRIG = ["pkg/filters/proxy", "harness/common/proxy"]
+C04INSTR = [{"file": "pkg/filters/proxy/loadbalance.go", "imports": {"sync/atomic": "vatomic", "math/rand": "vrand"}},
+            {"file": "pkg/filters/proxy/pool.go", "imports": {"sync/atomic": "vatomic"}}]
+
+CHECKS["C04"] = {
+    "level": "model_checking",
+    "technique": "exhaustive exploration of random answers and key sequences (choice-tree DFS) + controlled-scheduler enumeration of selector/list-replacement interleavings on the real ServerPool",
+    "level_text": "sequential: every policy x 1..4 servers x weight vectors x discovery variants with EVERY answer of every rand.Intn call explored; concurrent: 2-3 selectors x 2 selections "
+                  "interleaved with a discovery update at gate granularity (atomic counter, atomic.Value load/store, rand) up to the preemption bound; oracle: picks inside the current list, "
+                  "roundRobin floor/ceil fairness per list generation, hash stickiness, zero-weight never chosen, no failure/panic for validation-accepted pools",
+    "level_note": "math/rand and sync/atomic of loadbalance.go/pool.go replaced by gated shims in an overlay copy; fnSendRequest stubbed; counter wrap-around not covered",
+    "rule": "choice tree: weight config, rand answers, discovery variant / scheduler choices; distinct_nontrivial = distinct (policy,n,weights,discovery) or (picks per generation) classes",
+    "explanation": "states = executions (each a distinct choice sequence); transitions = executions; every execution ran on the real code",
+    "bounds": {"quick": "seq: all; sched: preemption bound 2", "thorough": "seq: all; sched: preemption bound 3"},
+    "assumptions": ["between two gates a goroutine runs atomically (race pass is separate)"],
+    "units": [
+        {"name": "lbseq", "pkg": "pkg/filters/proxy", "test": "TestVerifC04", "inject": [PROXYRIG], "instrument": C04INSTR},
+        {"name": "lbsched", "pkg": "pkg/filters/proxy", "test": "TestVerifC04sched", "inject": [PROXYRIG, ["pkg/filters/proxy", "harness/C04/lbseq"]], "instrument": C04INSTR, "gomaxprocs": 1, "workers": 5},
+    ],
+}
